@@ -271,7 +271,7 @@ _add_grid("thorough")
 
 # ------------------------------------------------------------------ row edits
 
-EDITS = ["permute", "duplicate", "drop", "append", "weights-travel"]
+EDITS = ["permute", "duplicate", "drop", "append", "weights-travel", "tied-weights"]
 
 
 def gen_edit(rng, i):
@@ -281,7 +281,7 @@ def gen_edit(rng, i):
     N = int(rng.integers(3, 7))
     B = _targets(rng, Mt, c0, lbv, ubv, N, nonneg)
     edit = EDITS[(i // 5) % len(EDITS)]
-    if edit == "weights-travel" and proc in ("minimize_variance",):
+    if edit in ("weights-travel", "tied-weights") and proc in ("minimize_variance",):
         proc = "gaussian-tight"
     bs = [1, 2, N - 1, "full"][rng.integers(4)]
     s.update({"B": B, "N": N, "bs": bs, "proc": proc, "edit": edit, "perm": rng.permutation(N),
@@ -296,10 +296,26 @@ def chk_edit(inp, c):
     B, N, bs, proc, edit = inp["B"], inp["N"], inp["bs"], inp["proc"], inp["edit"]
     c.cell("proc=" + proc, "edit=" + edit, f"editbs={bs}")
     est = c.call(gen.make_estimator, dreye, inp, _where="ReceptorEstimator+register_system")
-    Ws = inp["Ws"] if edit == "weights-travel" else None
+    Ws = inp["Ws"] if edit in ("weights-travel", "tied-weights") else None
+    if edit == "tied-weights":
+        # consecutive rows with the SAME (out-of-gamut) target but different per-sample weights: each row's result is
+        # what that row gets when fitted alone with its own weights
+        B = B.copy()
+        B[2] = B[1]
+        if N >= 5:
+            B[4] = B[1]
     X0, B0 = _run(c, est, proc, B, bs, Ws, "orig")
     scale = max(1.0, float(np.max(np.abs(B))))
     tol = TOL[proc] * scale
+    if edit == "tied-weights":
+        alone = np.array([_run(c, est, proc, B[r:r + 1], 1, Ws[r:r + 1], "row alone")[1][0] for r in range(N)])
+        dev = np.max(np.abs(B0 - alone), axis=1)
+        c.margin(f"{proc}: row-edit deviation / tol", float(np.max(dev)), tol)
+        c.require(np.all(dev <= tol), "rows with equal targets but different weights are fitted with their own weights",
+                  mechanism=f"row-dependence:{edit}:{proc}", dev=np.sort(dev)[::-1][:3], tol=tol, bs=str(bs))
+        c.nontrivial()
+        c.note("edit", {"edit": edit, "proc": proc, "bs": str(bs), "max_dev": float(np.max(dev))})
+        return
     if edit in ("permute", "weights-travel"):
         p = inp["perm"]
         X1, B1 = _run(c, est, proc, B[p], bs, None if Ws is None else Ws[p], "permuted")
